@@ -69,7 +69,7 @@ claimed = {
   technique=SIM + ": operation-level seeded schedule incl. index compactions, series-set reference model",
   ref="3 C14"),
  "C16": dict(
-  text="Inside a simulated-clock bubble: the real httpd.Handler with authentication enabled, the real meta.QueryAuthorizer/WriteAuthorizer and a real meta.Client that follows the metadata through its real polling loop over the simulated network (stub meta server with long polling and plan-decided latency). A run is a history of 2-24 operations: user creation/removal, password change, grant/revoke per database, admin flag - each awaited until it reached the node or left in flight -, a password change placed by a yield point between the verification of a password and its entry into the credential cache, queries (1-3 statements out of 32 kinds, explicit and default database) and writes, with credentials as basic auth, query parameters, bearer token (valid, expired on the simulated clock, wrong secret) or none. Statements that pass are recorded by an executor behind the real query.Executor. Oracle: reference model of users/passwords/grants plus the harness' own table of what each statement kind needs; nothing may execute without authority (incl. before the first administrator exists and through the credential cache once a change has reached the node), and what the model authorises must execute.",
+  text="Inside a simulated-clock bubble: the real httpd.Handler with authentication enabled, the real meta.QueryAuthorizer/WriteAuthorizer and a real meta.Client that follows the metadata through its real polling loop over the simulated network (stub meta server with long polling and plan-decided latency). A run is a history of 2-24 operations: user creation/removal, password change, grant/revoke per database, admin flag - each awaited until it reached the node or left in flight -, a password change placed by a yield point between the verification of a password and its entry into the credential cache, queries (1-3 statements out of 32 kinds, explicit and default database) and writes, with credentials as basic auth, query parameters, bearer token (valid, expired on the simulated clock, wrong secret) or none. Statements that pass are recorded by an executor behind the real query.Executor. Oracle: reference model of users/passwords/grants plus the harness' own table of what each statement kind needs; nothing may execute without authority (incl. before the first user exists - only the creation of the first administrator -, after the last administrator was dropped or demoted while other users remain - nothing anonymous -, and through the credential cache once a change has reached the node), and what the model authorises must execute.",
   note="requests issued while a change affecting them is still in flight are not judged (counted as a probe); required privileges follow the documented model; DROP SERIES, DELETE and DROP RETENTION POLICY are only held to the lower bound WRITE (documentation and query language disagree); the meta server is a stub (no raft), statement execution is a recorder, so checks inside coordinator.StatementExecutor are not exercised; Flux, Prometheus and debug endpoints are not driven",
   technique=SIM + ": seeded user/grant/credential histories against the real HTTP handler, authorizers and polling meta client on a simulated network and clock; window scheduling at a yield point; reference model",
   ref="3 C16"),
@@ -94,7 +94,7 @@ claimed = {
   technique=SIM + ": seeded source histories, window-level yield inside the backup's snapshot, stream-cut and simulated-network fault injection, LWW model comparison",
   ref="3 C18"),
  "C19": dict(
-  text="The test binary is built with the race detector. A run starts 2-5 client goroutines at a barrier, each executing its plan-decided sequence of public operations on one shared object: (store) writes to own and shared series, reads, cache snapshots, compactions, deletes and drops of other series, conflicting writes of different types to new fields on one shard of a real tsdb.Store (inmem/tsi1); (handoff) concurrent writers into a real hinted-handoff NodeProcessor while its retry loop delivers on the simulated clock; (meta) the meta state machine applying 5-60 generated commands while snapshots are taken/persisted and readers copy the metadata; (pool) clients of the inter-node connection pool (get, use, return, mark unusable, double close, idle pruning on the simulated clock, pool close). Every operation is stamped with a global sequence number at invoke and return. Oracles: race detector reports; watchdog (clients that never finish = deadlock, with the blocked goroutines); panics and process crashes on goroutines of the code under test; a read contains every write acknowledged before it began and nothing never written; afterwards and after reopening every acknowledged write reads back; a field written with conflicting types holds one type; every handed-off point is delivered; a persisted metadata snapshot decodes and equals the state after some prefix of the commands; the pool never exceeds its bound, hands no connection to two clients or closed, leaks none. Deterministic windows through yield points place (a) a conflicting write between another write's field validation and its field creation / cache write, (b) a second field creation between a creator's lock-free lookup and its lock.",
+  text="The test binary is built with the race detector. A run starts 2-5 client goroutines at a barrier, each executing its plan-decided sequence of public operations on one shared object: (store) writes to own and shared series, reads, cache snapshots, compactions, deletes and drops of other series, conflicting writes of different types to new fields on one shard of a real tsdb.Store (inmem/tsi1); (handoff) concurrent writers into a real hinted-handoff NodeProcessor while its retry loop delivers on the simulated clock; (meta) the meta state machine applying 5-60 generated commands while snapshots are taken/persisted and readers copy the metadata; (pool) clients of the inter-node connection pool (get, use, return, mark unusable, double close, idle pruning on the simulated clock, pool close). Every operation is stamped with a global sequence number at invoke and return. Oracles: race detector reports; watchdog (clients that never finish = deadlock, with the blocked goroutines); panics and process crashes on goroutines of the code under test; a read contains every write acknowledged before it began and nothing never written; afterwards and after reopening every acknowledged write reads back; a field written with conflicting types holds one type; every handed-off point is delivered; a persisted metadata snapshot decodes and equals the state after some prefix of the commands; the pool never exceeds its bound, hands no connection to two clients or closed, leaks none. Deterministic windows through yield points place (a) a conflicting write between another write's field validation and its field creation / cache write, (b) a second field creation between a creator's lock-free lookup and its lock, (c) the close of the connection pool between a returning connection's is-the-pool-open check and its hand-over.",
   note="which goroutine runs when is the Go scheduler's decision: a seed fixes operations, order per client and pauses, not the interleaving (the window scenarios are deterministic); replays are attempted up to 20 times and race reports that arrive after a worker's last run are reported with the worker's race log as replay file; raft is replaced by one applier goroutine; the handoff target and pool connections are stubs; porcupine is not used - the oracles are per-series containment checks, which are linear, because every written value is unique",
   technique=SIM + ": seeded concurrent-client plans under the Go race detector, invoke/return-stamped histories checked against an acknowledged-writes model, deterministic window scheduling at yield points, simulated clock for retry/idle timers",
   ref="3 C19"),
